@@ -163,8 +163,8 @@ pub fn dress(base: &sdk::BaseReq, class: Class) -> Option<(Req, Vec<u8>)> {
     Some((r, body))
 }
 
-const ACCESS: &[AccessMode] = &[AccessMode::None, AccessMode::Allow, AccessMode::Deny, AccessMode::DenyOp("__this__"), AccessMode::DenyTyped, AccessMode::Default];
-const ROUTES: &[RouteMode] = &[RouteMode::None, RouteMode::MatchAll, RouteMode::Never, RouteMode::MatchAllOpen];
+const ACCESS: &[AccessMode] = &[AccessMode::None, AccessMode::Allow, AccessMode::Deny, AccessMode::DenyOp("__this__"), AccessMode::DenyTyped, AccessMode::Default, AccessMode::Inherited];
+const ROUTES: &[RouteMode] = &[RouteMode::None, RouteMode::MatchAll, RouteMode::Never, RouteMode::MatchAllOpen, RouteMode::MatchAllInherited];
 
 /// Reference monitor. Returns (kind, message) on a violation.
 fn monitor(op: &str, identity: Identity, presents: bool, has_provider: bool, access: AccessMode, route: RouteMode, evs: &[Event], verdict: &str, status: Option<u16>) -> Option<(&'static str, String)> {
@@ -236,12 +236,13 @@ fn monitor(op: &str, identity: Identity, presents: bool, has_provider: bool, acc
         }
     }
     // (b,d) order and approvals
-    let route_matches = matches!(route, RouteMode::MatchAll | RouteMode::MatchAllOpen);
+    let route_matches = matches!(route, RouteMode::MatchAll | RouteMode::MatchAllOpen | RouteMode::MatchAllInherited);
     if route_matches {
         if evs.iter().any(|e| matches!(e, Event::Backend(_))) {
             return bad("backend-despite-route", "backend ran although the custom route matched");
         }
-        let mut seen_check = false;
+        // (a route that inherits check_access cannot record it: its approval is implied for an identified request)
+        let mut seen_check = route == RouteMode::MatchAllInherited && identity != Identity::Anonymous;
         for e in evs {
             match e {
                 Event::RouteCheck { allowed, .. } => seen_check = *allowed,
@@ -258,7 +259,12 @@ fn monitor(op: &str, identity: Identity, presents: bool, has_provider: bool, acc
         }
     } else {
         let access_configured = access != AccessMode::None;
-        let mut state = 0; // 0 nothing, 1 check ok, 2 typed ok
+        if identity == Identity::Anonymous && access == AccessMode::Inherited && (ran_handler || evs.iter().any(|e| matches!(e, Event::Typed { .. }))) {
+            return bad("anonymous-passed-the-inherited-check", "anonymous request passed a hook that inherits the default check (refuse anonymous requests)");
+        }
+        // (a hook that inherits `check` from the trait cannot record it: its approval is implied for an identified request,
+        // and for an anonymous one nothing after it may run at all)
+        let mut state = if access == AccessMode::Inherited && identity != Identity::Anonymous { 1 } else { 0 }; // 0 nothing, 1 check ok, 2 typed ok
         // which operation the request denotes is C01's subject; here the three stages must agree with each other
         let mut cur: Option<String> = None;
         let _ = op;
@@ -416,7 +422,7 @@ pub fn run(ctx: &Ctx) -> (Acc, Report) {
     });
     let rep = Report {
         level: "exploration",
-        rule: format!("full product: {n_ops} operations (SDK-encoded base request) + the POST form x 16 request classes (anonymous; valid V4 header/presigned, V2 header/presigned; each with a wrong signature; unknown key; expired; duplicated, malformed Authorization) x provider {{none, present}} x access hook {{none, allow, deny, deny-by-operation, deny-in-typed-hook, default}} x route {{none, match-all, never, match-all-open}} x host parser {{none, single}}. Oracle: reference monitor over the ordered event log of recording S3Auth / S3Access::check / typed hook / S3Route / backend. Every case is non-trivial; distinct by id."),
+        rule: format!("full product: {n_ops} operations (SDK-encoded base request) + the POST form x 16 request classes (anonymous; valid V4 header/presigned, V2 header/presigned; each with a wrong signature; unknown key; expired; duplicated, malformed Authorization) x provider {{none, present}} x access hook {{none, allow, deny, deny-by-operation, deny-in-typed-hook, default re-implemented, check inherited from the trait}} x route {{none, match-all, never, match-all-open, match-all with check_access inherited from the trait}} x host parser {{none, single}}. Oracle: reference monitor over the ordered event log of recording S3Auth / S3Access::check / typed hook / S3Route / backend. Every case is non-trivial; distinct by id."),
         exhaustive: true,
         extra: json!({"operations": n_ops, "histories": hist_n, "history_requests_executed": hist_steps, "history_rule": "all sequences of length 1..2 (thorough 3) over 25 requests (four signature schemes x two identities x honest / signed with the other identity's secret x scopes, and an anonymous request) on one service instance, single-threaded, fixed order; each verdict and the identity shown = the reference verdict of that request alone"}),
         assumptions: vec![
